@@ -170,6 +170,7 @@ def fieldWritesUrl : List (String × String) := [
   ("parser.handleWrappedError", "u.validationErrors"),
   ("inputString.nextCodePoint", "i.pointer"),
   ("inputString.nextCodePoint", "i.eof"),
+  ("inputString.currentByteOffset", "i.offsets"),
   ("inputString.getCurrentAsByte", "i.eof"),
   ("inputString.rewindLast", "i.eof"),
   ("inputString.rewindLast", "i.pointer"),
@@ -279,8 +280,8 @@ def modrefUrl : List (String × Bool × List String × List String × List Strin
   ("percentEncodeByte", false, [], [], [], [("bitset.BitSet.Test", "param1")]),
   ("newInputString", false, [], ["fresh"], [], []),
   ("inputString.nextCodePoint", false, ["recv"], [], [], []),
-  ("inputString.currentIsInvalid", false, [], [], [], []),
-  ("inputString.currentByteOffset", false, [], [], [], []),
+  ("inputString.currentIsInvalid", false, ["recv"], [], [], []),
+  ("inputString.currentByteOffset", false, ["recv"], [], [], []),
   ("inputString.getCurrentAsByte", false, ["recv"], [], [], []),
   ("inputString.rewindLast", false, ["recv"], [], [], []),
   ("inputString.reset", false, ["recv"], [], [], []),
